@@ -15,7 +15,7 @@ ALPHA = ["int", "T", "x", "typedef", "struct", "enum", "{", "}", "(", ")", "[", 
 PREFIXES = ["", "typedef int T; ", "void f(void){ ", "struct S { ", "int x = ", "typedef int T; void f(void){ ", "int f("]
 
 
-def classify(outcome, filename="f.c"):
+def classify(outcome, filename="f.c", text=""):
     """None if the outcome is allowed by the property, else a description"""
     if outcome.startswith("OK") or outcome == "R":
         return None
@@ -23,8 +23,12 @@ def classify(outcome, filename="f.c"):
         return "parse() did not terminate within the time limit"
     if outcome.startswith("E" + US):
         msg = outcome.split(US, 1)[1]
-        if re.match(r"^" + re.escape(filename) + r":\d+:\d+: ", msg) or msg.startswith(filename + ": ") or re.match(r"^[^:\n]+:\d+(:\d+)?: ", msg):
-            return None
+        # the file names a location may mention: the one given to parse() and those set by line directives
+        names = {filename} | set(re.findall(r'#[ \t]*(?:line[ \t]+)?\d+[ \t]+"((?:[^"\\\n]|\\.)*)"', text))
+        for nm in names:
+            nm2 = nm.lstrip('"').rstrip('"')
+            if msg.startswith(nm2 + ": ") or re.match(r"^" + re.escape(nm2) + r":\d+(:\d+)?: ", msg):
+                return None
         return f"ParseError message does not start with a source location: {msg[:80]!r}"
     if outcome.startswith("C" + US):
         return f"{outcome.split(US)[1]} escaped from parse()"
@@ -65,7 +69,7 @@ def run(ctx, b, broken):
         if nontriv:
             ctx.nontriv(text)
         su.corr(text, io, tag=tag)
-        bad = classify(io)
+        bad = classify(io, text=text)
         if bad:
             su.violation(text, bad, {"observed": io[:300]})
     for pre in PREFIXES:
